@@ -97,10 +97,11 @@ def build_cases(tier):
     cases = []
 
     def add(label, expect, *, section=None, schema=SCHEMA_V, queries=VALID_QUERY, strategy="client", names_in_msg=(), files=None, env=None,
-            states=("absent", "previous_generation"), tags=(), raw_toml=None, args=None):
+            states=("absent", "previous_generation"), tags=(), raw_toml=None, args=None, config_file=None, decoy_pyproject=None):
         for st in states:
             cases.append(dict(label=label, expect=expect, section=section or {}, schema=schema, queries=queries, strategy=strategy, state=st,
-                              names=list(names_in_msg), files=files or {}, env=env or {}, tags=set(tags) | {f"state:{st}"}, raw_toml=raw_toml, args=args))
+                              names=list(names_in_msg), files=files or {}, env=env or {}, tags=set(tags) | {f"state:{st}"}, raw_toml=raw_toml, args=args,
+                              config_file=config_file, decoy_pyproject=decoy_pyproject))
 
     IC, MC = "InvalidConfiguration", "MissingConfiguration"
     # (i) configuration constraints, under every base configuration that has its own reading path in the settings
@@ -169,6 +170,21 @@ def build_cases(tier):
     # (iv) invalid operations
     for rule, q in INVALID_OPERATIONS.items():
         add(f"invalid_operation:{rule}", "InvalidOperationForSchema", queries=q, states=STATES if tier != "quick" else ("absent", "previous_generation"), tags={f"rule:{rule}", "invalid_operation"})
+    # the --config option: the selected file decides, whatever a pyproject.toml lying next to it says (both strategies)
+    for strat, extra in (("client", {}), ("graphqlschema", {"target_file_path": "schema_out.py"})):
+        for decoy_label, decoy in (("none", None), ("invalid", "[tool.ariadne-codegen]\nschema_path = \"does_not_exist.graphql\"\nqueries_path = \"nope\"\ntarget_file_path = \"x.txt\"\n"),
+                                   ("no_section", "[tool.other]\nx = 1\n"), ("valid_other", "VALID_OTHER")):
+            add(f"config_option_valid:{strat}:{decoy_label}", "ok", strategy=strat, section=dict(extra), args=["--config", "custom.toml", strat], config_file="custom.toml", decoy_pyproject=decoy,
+                states=("absent",), tags={"positive", "config_option", f"decoy:{decoy_label}"})
+            if decoy_label in ("none", "valid_other"):
+                add(f"config_option_invalid:{strat}:{decoy_label}", IC, strategy=strat, section=dict(extra, schema_path="nope.graphql"), names_in_msg=["nope.graphql"], args=["--config", "custom.toml", strat],
+                    config_file="custom.toml", decoy_pyproject=decoy, states=("absent",), tags={"cfg:path", "config_option", f"decoy:{decoy_label}"})
+    # target file names with several dots: the LAST extension decides
+    for name, ok in (("schema.v2.graphql", True), ("api.2024.py", True), ("my.schema.gql", True), ("exported.graphql.txt", False), ("schema.py.bak", False), ("a.gql.json", False)):
+        if ok:
+            add(f"target_multi_dot_ok:{name}", "ok", strategy="graphqlschema", section={"target_file_path": name}, states=("absent",), tags={"positive", "target_multi_dot"})
+        else:
+            add(f"target_multi_dot_bad:{name}", IC, strategy="graphqlschema", section={"target_file_path": name}, names_in_msg=[name], states=("absent",), tags={"cfg:target_file_type", "target_multi_dot"})
     # (v) positive
     add("valid_default", "ok", states=STATES, tags={"positive"})
     add("valid_no_strategy_argument", "ok", args=[], states=("absent",), tags={"positive", "no_strategy_argument"})
@@ -237,7 +253,13 @@ def run_case(case):
                 text = toml.dumps({"ariadne-codegen": sec})
             else:
                 text = case["raw_toml"] or toml.dumps(cfg)
-            open("pyproject.toml", "w").write(text)
+            open(case.get("config_file") or "pyproject.toml", "w").write(text)
+            if case.get("decoy_pyproject") is not None:
+                decoy = case["decoy_pyproject"]
+                if decoy == "VALID_OTHER":
+                    other = dict(sec, **({"target_package_name": "decoy_client"} if strategy == "client" else {"target_file_path": "decoy_schema.py"}))
+                    decoy = toml.dumps({"tool": {"ariadne-codegen": other}})
+                open("pyproject.toml", "w").write(decoy)
             # pre-existing target state
             st = case["state"]
             tdir_ok = os.path.isdir(os.path.dirname(target)) and os.path.basename(target) not in ("", ".")
